@@ -95,6 +95,10 @@ EXTRA = [
     ["payload_length", None], ["payload_length", "8"],
 ]
 FULL = CORE + EXTRA
+PIPE0 = [["open_rx_pipe", 0, A5], ["open_rx_pipe", 0, B3], ["open_rx_pipe", 0, "hex:"], ["close_rx_pipe", 0],
+         ["open_tx_pipe", T5], ["open_tx_pipe", C5], ["open_tx_pipe", T3],
+         ["set_auto_ack", 0, 0], ["set_auto_ack", 1, 0], ["listen", True], ["listen", False], ["reenter"],
+         ["address_length", 3], ["address_length", 5]]
 
 GETTER_ATTRS = ["channel", "data_rate", "pa_level", "is_lna_enabled", "crc", "address_length",
                 "ard", "arc", "auto_ack", "dynamic_payloads", "payload_length", "ack",
@@ -135,6 +139,28 @@ def gen_cases(ctx):
             for poll in (False, True):
                 yield {"kind": "single", "variant": var, "flavour": flav, "poll": poll,
                        "ops": [op]}
+    # 1b. histories around pipe 0 (the pipe open_tx_pipe() borrows for acknowledgements and
+    # listen = True gives back): exhaustive over a small alphabet, then templates beyond that
+    # depth - pipe 0 opened or not, two TX addresses in a row with auto-ack on pipe 0 changed
+    # before / between / after them, then one or two role round trips
+    d0 = 3 if ctx.tier == "quick" else 5
+    for seq in itertools.product(range(len(PIPE0)), repeat=d0):
+        yield {"kind": "pipe0", "variant": "plus", "flavour": "pin", "poll": bool(i & 1),
+               "ops": [PIPE0[j] for j in seq] + [["listen", True], ["listen", False], ["listen", True]]}
+        i += 1
+    aa = [None, ["set_auto_ack", 0, 0], ["set_auto_ack", 1, 0], ["auto_ack", 0x3E], ["auto_ack", True]]
+    for first in (None, ["open_rx_pipe", 0, A5], ["open_rx_pipe", 0, B3], ["open_rx_pipe", 0, "hex:"],
+                  ["close_rx_pipe", 0]):
+        for t1, t2 in ((T5, C5), (T5, T3), (T3, T5), (T5, T5), (A5, T5), (T5, A5)):
+            for a0, a1, a2 in itertools.product(aa, repeat=3):
+                if ctx.tier == "quick" and (aa.index(a0) + aa.index(a1) + aa.index(a2)) % 2:
+                    continue
+                for mid in (None, ["listen", True], ["reenter"]):
+                    ops = [first, a0, ["open_tx_pipe", t1], a1, mid, ["open_tx_pipe", t2], a2,
+                           ["listen", True], ["listen", False], ["open_tx_pipe", t1], ["listen", True]]
+                    yield {"kind": "pipe0", "variant": ["plus", "nonplus"][i % 2], "flavour": "pin",
+                           "poll": bool(i & 2), "ops": [o for o in ops if o is not None]}
+                    i += 1
     # 2. random walks
     nwalk = 300 if ctx.tier == "quick" else 20000
     rng = ctx.sub_rng("walks")
